@@ -17,8 +17,8 @@ CONSTANTS KeyLen,      \* keys are all bit strings of length <= KeyLen
           EntryDepth,  \* maximal number of calls on one entry handle
           ViewAcct     \* TRUE: states differing in arena length / free-list size are distinct
 
-VARIABLES m, abs, ev, ret, pan, aret, apan, hist, canon
-vars == <<m, abs, ev, ret, pan, aret, apan, hist, canon>>
+VARIABLES m, abs, ev, ret, pan, aret, apan, hist, canon, drift
+vars == <<m, abs, ev, ret, pan, aret, apan, hist, canon, drift>>
 
 RECURSIVE BitSeqs(_)
 BitSeqs(k) == IF k = 0 THEN {<<>>}
@@ -45,9 +45,18 @@ EntrySeqs(p) == SeqsUpTo(OpsFor(IF p.n \in StoredKeys THEN "O" ELSE "V"), EntryD
 
 EventsOf(a) ==
     CASE a = "Insert" -> {[a |-> a, p |-> p, v |-> v] : p \in Pfxs, v \in Vals}
-      [] a \in {"Remove", "RemoveKeepTree", "RemoveChildren"} \cup (Observers \ {"Iter", "Len"})
+      [] a \in {"Remove", "RemoveKeepTree", "RemoveChildren",
+                "Get", "GetKV", "Contains", "Lpm", "Spm", "Cover", "Children"}
                       -> {[a |-> a, p |-> p] : p \in Pfxs}
       [] a \in {"Clear", "Iter", "Len"} -> {[a |-> a]}
+      [] a = "ViewDesc" -> {[a |-> a, p |-> p] : p \in Pfxs}
+      [] a = "Find" -> {[a |-> a, p |-> p, q |-> q, kind |-> k] :
+                           p \in Pfxs, q \in Pfxs, k \in {"find", "find_exact", "find_lpm"}}
+      [] a = "ViewSet" -> {[a |-> a, p |-> p, v |-> v] : p \in Pfxs, v \in Vals}
+      [] a = "ViewRemove" -> {[a |-> a, p |-> p] : p \in Pfxs}
+      [] a = "ViewValueMut" -> {[a |-> a, p |-> p, how |-> w] : p \in Pfxs, w \in {"value_mut", "prefix_value_mut"}}
+      [] a = "ViewIterMut" -> {[a |-> a, p |-> p, k |-> k, how |-> w] :
+                                  p \in Pfxs, k \in 0..Cardinality(abs), w \in {"iter_mut", "values_mut", "into_iter"}}
       [] a \in {"GetMut", "LpmMut"} -> {[a |-> a, p |-> p, v |-> v] : p \in Pfxs, v \in Vals}
       [] a \in {"IterMut", "ValuesMut"} -> {[a |-> a, k |-> k] : k \in 0..Cardinality(abs)}
       [] a = "ChildrenMut" -> {[a |-> a, p |-> p, k |-> k] : p \in Pfxs, k \in 0..Cardinality(abs)}
@@ -58,9 +67,15 @@ EventsOf(a) ==
 AllEvents == UNION {EventsOf(a) : a \in Acts}
 
 Init == /\ m = EmptyMap /\ abs = {} /\ ev = [a |-> "Init"] /\ ret = <<>> /\ pan = FALSE
-        /\ aret = <<>> /\ apan = FALSE /\ hist = <<>> /\ canon = TRUE
+        /\ aret = <<>> /\ apan = FALSE /\ hist = <<>> /\ canon = TRUE /\ drift = 0
 
+\* while the counter lags behind (drift < 0, finding F4) a removal would underflow it; the
+\* model stops exploring removals there (the real code panics in debug builds)
+EnabledUnderDrift(e) ==
+    /\ drift >= 0 \/ e.a \in Observers \cup {"Insert", "Clear", "ViewSet", "ViewValueMut", "ViewIterMut", "GetMut"}
+    /\ drift + DriftDelta(m, e) \in -1..1          \* bound of the exploration, not of the code
 Next == \E e \in AllEvents :
+          EnabledUnderDrift(e) /\
           LET r  == Apply(m, e)
               ar == AbsApply(abs, e, r)
           IN /\ m' = r.m /\ ret' = r.ret /\ pan' = r.pan
@@ -68,16 +83,17 @@ Next == \E e \in AllEvents :
              /\ ev' = e
              /\ hist' = IF e.a \in Observers THEN hist ELSE Append(hist, e)
              /\ canon' = IF IsClear(e) THEN TRUE ELSE canon /\ CanonKeeps(e)
+             /\ drift' = IF IsClear(e) THEN 0 ELSE drift + DriftDelta(m, e)
 
 Spec == Init /\ [][Next]_vars
 
-View == IF ViewAcct THEN <<Tree(m), Len(m.a), Len(m.f), m.c, canon>> ELSE <<Tree(m), m.c, canon>>
+View == IF ViewAcct THEN <<Tree(m), Len(m.a), Len(m.f), m.c, canon, drift>> ELSE <<Tree(m), m.c, canon, drift>>
 Bound == Cardinality(abs) <= MaxCount
 
 (* ---- state invariants ---------------------------------------------------- *)
 InvWF        == WF(m) /\ IsTree(m)                           \* C15
 InvPartition == Partition(m)                                 \* C16
-InvCount     == CountOK(m)                                   \* C04
+InvCount     == m.c = NumValued(m) + drift                   \* C04 (drift # 0 only through finding F4)
 InvRefines   == Entries(m) = abs                             \* C01, C18
 InvCanon     == canon => CanonShape(m) /\ Compact(m)         \* C15
 
@@ -85,7 +101,7 @@ InvCanon     == canon => CanonShape(m) /\ Compact(m)         \* C15
 RECURSIVE Shape(_, _)
 Shape(mm, i) == IF i = 0 THEN <<>> ELSE <<mm.a[i].p.n, Shape(mm, mm.a[i].l), Shape(mm, mm.a[i].r)>>
 
-StepRetOK  == RetAgrees(ev', [ret |-> ret', pan |-> pan'], [ret |-> aret', pan |-> apan'])        \* C01 ...
+StepRetOK  == RetAgrees(ev', [ret |-> ret', pan |-> pan'], [ret |-> aret', pan |-> apan'], abs, canon, drift)        \* C01 ...
 StepGrowOK == ~IsClear(ev') =>                                                     \* C16
                 Len(m'.a) = MaxI(Len(m.a), Cardinality(Reach(m')))
 StepShapeOK == ShapeKeeps(ev') => Shape(m', 1) = Shape(m, 1)                  \* C15
@@ -95,12 +111,12 @@ PropShape == [][StepShapeOK]_vars
 
 (* ---- emission ------------------------------------------------------------- *)
 \* one row per distinct state (printed when the state is first found) ...
-StateRow == [s |-> hist, f |-> Tree(m), fx |-> <<Len(m.a), Len(m.f), m.c>>, cn |-> canon]
+StateRow == [s |-> hist, f |-> Tree(m), fx |-> <<Len(m.a), Len(m.f), m.c>>, cn |-> canon, dr |-> drift]
 EmitState == EmitActs # {} => PrintT(ToJson(StateRow))
 \* ... and one row per generated transition whose action is selected
 Row == IF ev'.a \in Observers
        THEN [h |-> hist, e |-> ev', r |-> ret', pn |-> pan']
        ELSE [h |-> hist, e |-> ev', r |-> ret', pn |-> pan',
-             t |-> Tree(m'), x |-> <<Len(m'.a), Len(m'.f), m'.c>>]
+             t |-> Tree(m'), x |-> <<Len(m'.a), Len(m'.f), m'.c>>, dr |-> drift']
 Emit == ev'.a \in EmitActs => PrintT(ToJson(Row))
 =============================================================================
